@@ -62,7 +62,7 @@ def gen_cases(ctx):
                 rng.shuffle(prio)
                 cases.append(dict(cfg=cfg, n=nn, tail=tail, table=table, fkind='module', kwargs={},
                                   schedule=dict(priority=prio, quiet_ms=15) if forced else None, demand=demand,
-                                  label=way, k=k))
+                                  label=way, k=k, library_warnings_are_errors=rng.random() < 0.3))
     return cases
 
 
